@@ -149,6 +149,9 @@ func checkC09(c *Ctx) Meta {
 		checkListAliasing(c, spec.pkg, spec.label)
 	}
 	checkOffered(c)
+	c.Rule("C09-OPEN", "registered vs ready on open follows the recorded progress: readiness is derived from map B's checkpoint (HashMapB.Progress compares checkpoint with volume; MassDBV1.Progress forwards that flag; NewWorkSpace stores Ready only under it; OpenDB loads map A unless B's checkpoint is final) — a space whose second pass is unfinished comes up registered, never ready (the C10-READY rules, here as the entry point of the state machine)", 4)
+	checkReadyRules(c, "C09-OPEN")
+	checkMapALoadedByProgressOnly(c, "C09-OPEN")
 	return Meta{
 		Explanation: "Extracts every writer of WorkSpace.state and of the per-state indexes from the SSA of both keepers, reconstructs the transitions (old index deleted, new index set, field stored; guard = the index whose membership test dominates the site) and compares the set with the documented table frozen from engine.go; checks the write lock at every state effect of concurrently runnable code, queue clearing before effects, the single plotter, and the flag filter feeding the miner.",
 		NotDecided:  "liveness ('a plotting space eventually becomes ready'), that the popped queue item is the plotting space at all times, linearisation of unlocked state reads by proof queries (a momentarily stale filter is within the property).",
